@@ -55,7 +55,15 @@ def run_program(inst, mode):
         args, zv, p, gvals, gz, gp = {}, [], [], {}, [], []
     zvars += zv + gz
     pre += p + gp
-    if mode == "agreement":
+    wide_uint = mode == "agreement" and "wide-uint" in inst.get("tags", [])
+    if wide_uint:
+        # uint parameters over [0, 2^32): the VM sees the unsigned value, the wasm function its two's complement reading
+        for t, n in f.params:
+            z = z3.Int(n + "_u")
+            zvars.append((n, z, "int"))
+            pre.append(z3.And(z >= 0, z < 2 ** 32))
+            args[n] = symx.SymNum(z)
+    elif mode == "agreement":
         lim = 100 if not wide else 1000
         for v in list(args.values()) + list(gvals.values()):
             for leaf in famcheck.leaves(v):
@@ -108,15 +116,20 @@ def run_program(inst, mode):
             return ("vm-failed", f"{type(e).__name__}: {e}", dropped)
         if isinstance(r_vm, symx.SymNum) and not r_vm.isf:
             symx.current().assume(z3.And(r_vm.e >= I32_MIN, r_vm.e <= I32_MAX))
-        wasmref.ASSUME_NO_I32_OVERFLOW = True
+        wasmref.ASSUME_NO_I32_OVERFLOW = not wide_uint
         try:
-            out = wasmref.call(m, idx, [args[n] for _, n in f.params])
+            wargs = [args[n] for _, n in f.params]
+            if wide_uint:
+                wargs = [symx.SymNum(z3.If(a.e >= 2 ** 31, a.e - 2 ** 32, a.e)) for a in wargs]
+            out = wasmref.call(m, idx, wargs)
         except wasmref.Trap as e:
             return ("trap", str(e), dropped, r_vm)
         except ZeroDivisionError:
             raise symx.Abort("infeasible")
         finally:
             wasmref.ASSUME_NO_I32_OVERFLOW = False
+        if wide_uint and out:
+            return ("ran", dropped, wasmref.u32(out[0]), wasmref.u32(r_vm))      # both as unsigned 32-bit values
         return ("ran", dropped, out[0] if out else None, r_vm)
 
     eng = Engine(max_decisions=300, max_paths=800, path_timeout=8.0)
@@ -243,6 +256,8 @@ def replay(spec):
         prog = skeleton(src)
         f = [x for x in prog.funcs if x.name == _entry(inst) and x.exported][0]
         cargs = joint.concrete_inputs(f.params, vals)
+        if "wide-uint" in inst.get("tags", []):
+            cargs = {n: int(vals.get(n + "_u", vals.get(n, 0))) for _, n in f.params}
         try:
             r_vm, _ = joint.vm_run(joint.link(joint.compile_source(src)), _entry(inst), dict(cargs), {}, [])
         except ZeroDivisionError:
@@ -250,7 +265,10 @@ def replay(spec):
         except Exception as e:  # noqa: BLE001
             return dict(source=src, args=cargs, vm_exception=f"{type(e).__name__}: {e}")
         try:
-            r_w = wasmfam.wasmtime_call(data, _entry(inst), [cargs[n] for _, n in f.params])
+            wa = [cargs[n] for _, n in f.params]
+            if "wide-uint" in inst.get("tags", []):
+                wa = [a - 2 ** 32 if a >= 2 ** 31 else a for a in wa]
+            r_w = wasmfam.wasmtime_call(data, _entry(inst), wa)
         except Exception as e:  # noqa: BLE001
             return dict(source=src, args=cargs, vm=r_vm, wasm_trap=str(e).splitlines()[0][:120])
         if r_vm is None and r_w is None:
@@ -259,6 +277,8 @@ def replay(spec):
             import struct
             single = struct.unpack("<f", struct.pack("<f", float(r_vm)))[0] if r_vm is not None else None
             ok = r_w is not None and single is not None and (abs(r_w - single) <= 1e-4 * max(1.0, abs(single)))
+        elif "wide-uint" in inst.get("tags", []):
+            ok = (r_vm % 2 ** 32) == (r_w % 2 ** 32)
         else:
             ok = r_vm == r_w
         return None if ok else dict(source=src, args=cargs, vm=r_vm, wasm=r_w)
